@@ -37,6 +37,12 @@ CHECKS = {
         "text": "Generated-input search over replace / replace_dict / canonicalize / identical / excavate_ite / burrow_ite / ite_cases / ite_dict / reverse_ite_cases / chop / get_bytes: each result is compared with an executable specification of the utility (IR-level substitution, first-true-case, table lookup, byte slicing, injective sort-preserving renaming, existence of a variable bijection for identical()==True) on all assignments at <=10 variable bits, sampled assignments plus a Z3 validity query above.",
         "note": "identical(): only True answers are checked; reverse_ite_cases: exhaustiveness and per-case correctness, not exclusivity (not promised).",
     },
+    "C09": {
+        "level": "exploration",
+        "technique": "property-based testing: generated BV/Bool/FP/string trees and solver histories through claripy.simplify / backends.z3.simplify / Solver.simplify, equivalence decided by independent evaluator + Z3 validity query (BV), sampled-assignment substitution (FP, strings) and brute-force model sets (solvers)",
+        "text": "Generated trees (random, rewrite templates, shapes that Z3 rewrites into other operators, and an enumerated list applying every FP operator claripy can express directly to variables) are simplified through claripy.simplify and backends.z3.simplify: no exception is allowed (only backends.z3.simplify may decline string trees with BackendError) and the result must be equivalent to the written tree. Solver histories with simplify() interleaved must keep the brute-force model set of solver.constraints unchanged and answer correctly afterwards; FP/string constraint sets must simplify without raising and keep their value on special-class assignments.",
+        "note": "FP and string equivalence is checked on sampled/special-class assignments, not decided; Z3 operators claripy cannot produce (bvsmod, sign_extend survives no simplification) are outside the domain.",
+    },
     "C10": {
         "level": "exploration",
         "technique": 'property-based testing: generated Boolean expressions and solver histories with a one-sided validity oracle (exhaustive evaluation / Z3 / brute-force model set)',
@@ -84,6 +90,24 @@ CHECKS = {
         "technique": 'property-based testing: generated expressions and solver histories pickled in-process and into child processes with other hash seeds; structural-dump and model-set oracles',
         "text": 'Generated-input search: expressions of all sorts (annotated, FP, strings) must unpickle to the same object in-process, and in children with PYTHONHASHSEED 0/1/12345 to a structurally equal expression that is hash-consed with an identical rebuild; solver histories with pickle steps on every frontend class keep answering per the brute-force model set.',
         "note": 'Brute-force model-set reference is exact only within 17 variable bits (4 four-bit variables + 1 Boolean); latitude of DESIGN 3.2 (eval may return any feasible subset of the right size; empty result or UnsatError when no value exists; semantically constant queries answered without the solver).',
+    },
+    "C02": {
+        "level": "exploration",
+        "technique": "property-based testing: generated and enumerated FP operation trees (all 5 rounding modes, boundary operand pools) vs Z3's FPA rewriter on an independently built term",
+        "text": "Generated-input search plus a complete enumeration of boundary-pool x boundary-pool x {add,sub,mul,div} x 5 rounding modes and x 6 comparisons for both sorts (and all unary/conversion operations over the pool): the value claripy folds (or, if it does not fold, the value of its Z3 translation) must equal, bit for bit and NaN-as-NaN, the value Z3's rewriter gives an independently built term; symbolic trees are compared through BackendZ3 under sampled boundary assignments; FPV(double, FLOAT) construction is checked against RNE narrowing. Unspecified results (to_sbv/to_ubv of NaN/inf/out-of-range, NaN bits) are skipped, decided from the exact rational operand.",
+        "note": "Trusts Z3's ground FPA evaluation; symbolic FP trees are compared on sampled assignments only, never by FP solving.",
+    },
+    "C03": {
+        "level": "exploration",
+        "technique": "property-based testing: generated and enumerated string operation trees vs two independent references (Z3 sequence rewriter on code-point literals, scalar Python SMT-LIB semantics); folded vs solved vs model-evaluated",
+        "text": "Generated trees over an alphabet of NUL, backslash, escape-looking text, regex metacharacters, non-ASCII and astral code points with boundary 64-bit indices, plus an enumeration of every operation over an 18-string x 7-index pool: the folded value, the value of the BackendZ3 translation under the assignment, and the value computed under a cached model (ModelCache.eval_ast) must all equal the reference; every string constant must reach Z3 as exactly its code points.",
+        "note": "A disagreement between the two references would be counted and not reported; none occurs. Strings above U+2FFFF are outside SMT-LIB and not generated.",
+    },
+    "C26": {
+        "level": "exploration",
+        "technique": "property-based testing: generated constraint sets pinning boundary values of every sort; every value returned by eval/batch_eval/min/max re-asserted in an independent Z3 query built from the IR",
+        "text": "Generated constraint sets over bit-vectors (width 1..256), floats (both sorts, all special classes, generated rounding modes) and strings (any code point) on Solver, SolverCacheless, SolverComposite and SolverStrings; each query is issued twice (second answer may come from the model cache); each returned Python value is type/range-checked, re-encoded independently (IEEE bits, code points) and must be satisfiable together with the independently rebuilt constraints.",
+        "note": "Z3 decides the re-assertion (timeouts inconclusive); constant query expressions on unsatisfiable sets are exempt per DESIGN 3.2; fp.to_sbv/to_ubv not used in queries.",
     },
     "C17": {
         "level": "fault_enumeration",
